@@ -27,6 +27,19 @@ def strip_prog(prog):
     return prog
 
 
+def _renamed(prog, prefix):
+    def walk(steps):
+        for s_ in steps:
+            for ch in s_.get('children', ()):
+                ch['name'] = prefix + ch['name']
+                walk(ch['steps'])
+            walk(s_.get('body', ()))
+    for r in prog['roots']:
+        r['name'] = prefix + r['name']
+        walk(r['steps'])
+    return prog
+
+
 @st.composite
 def small_prog(draw, tier, roots=(1, 3)):
     p = draw(c01.programs(tier))
@@ -212,6 +225,13 @@ def cases(draw, tier):
                 'objs': {'locks': 1, 'queues': 1, 'resources': [{'kind': 'res', 'name': 'R', 'levels': {'a': 1}}]}}
             if draw(st.integers(0, 2)) == 0:
                 inner['roots'].append({'name': 'ix', 'steps': [{'op': 'sleep', 'd': 2}, {'op': 'raise', 'eid': 78, 'cls': 'K'}]})
+        elif draw(st.integers(0, 1)) == 0:
+            # a nested simulation about the very same dates as the enclosing one (waits, guards, children's start dates,
+            # and - half of the time - the same `till`): two simulations alive at once never share a date's bookkeeping
+            inner = _renamed(copy.deepcopy(outer), 'n')
+            inner['roots'] = inner['roots'][:2]
+            if draw(st.booleans()) and abs(num(outer['start'])) < 1e5:
+                outer['till'] = inner['till'] = num(outer["start"]) + draw(st.sampled_from([1, 2, 3.5, 6]))
         ri = draw(st.integers(0, len(outer['roots']) - 1))
         pos = draw(st.integers(0, len(outer['roots'][ri]['steps'])))
         return {'kind': 'nesting', 'outer': outer, 'inner': inner, 'root': ri, 'pos': pos}
